@@ -1,6 +1,8 @@
 package orch
 
 import (
+	"path/filepath"
+	"encoding/json"
 	"fmt"
 	"os"
 	"sort"
@@ -91,6 +93,13 @@ func (b *Batch) Run() int {
 	cases := map[int]*world.Case{}
 	outs := map[int]*world.Outcome{}
 	next := 0
+	if v := os.Getenv("VERIF_RANGE"); v != "" {
+		// Debugging aid: run only the cases with index in [a, b).
+		var a, bb int
+		if n, _ := fmt.Sscanf(v, "%d:%d", &a, &bb); n == 2 {
+			next, b.N, b.Budget, b.NoEvidence = a, bb, 0, true
+		}
+	}
 	for {
 		chunk := b.N - next
 		if chunk <= 0 {
@@ -111,6 +120,12 @@ func (b *Batch) Run() int {
 			c := b.Gen(i)
 			if c == nil {
 				return
+			}
+			if d := os.Getenv("VERIF_DUMP_CASES"); d != "" {
+				// Debugging aid: keep every generated case.
+				if data, err := json.Marshal(c); err == nil {
+					os.WriteFile(filepath.Join(d, fmt.Sprintf("%s-%06d.json", b.Property, i)), data, 0o644)
+				}
 			}
 			o := RunCase(c, RunOpts{})
 			if o.Verdict == "infra" && o.Class != "process-crash" {
